@@ -317,6 +317,38 @@ static void reordered_reads(int qi, int ci, int nk, int bk, int style, int n, co
 	wire_len = save_len;
 }
 
+/* "A (returning CNAME) queries may/will cause additional lookups by smart caching nameservers" (README): a recursive resolver
+   chases the CNAME it gets for an A question, finds that the target does not exist, and hands the record on unchanged under
+   RCODE NXDOMAIN with AA cleared and RA set (RFC 2308 2.1).  The payload is all there: the client extracts what it extracted
+   from the datagram as sent. */
+static unsigned long long n_chased_reads;
+
+static void chased_read(int qi, int ci, int nk, int bk, int style, int n, const unsigned char *straight, int rl)
+{
+	unsigned char f2 = wire[2], f3 = wire[3];
+	unsigned char *buf2;
+	struct query q;
+	int rl2;
+	if (wire_len < 12) return;
+	wire[2] = (unsigned char) ((f2 & ~0x04) | 0x80);	/* QR set, AA cleared */
+	wire[3] = (unsigned char) ((f3 & 0x70) | 0x80 | 3);	/* RA set, RCODE 3 */
+	buf2 = malloc((size_t) BUFSZ[bk]);
+	if (!buf2) exit(3);
+	memset(buf2, 0xEE, (size_t) BUFSZ[bk]);
+	memset(&q, 0, sizeof(q));
+	rl2 = drv_cli_read((char *) buf2, BUFSZ[bk], &q);
+	n_chased_reads++;
+	if (rl2 != rl || (rl > 0 && memcmp(buf2, straight, (size_t) (rl < BUFSZ[bk] ? rl : BUFSZ[bk])))) {
+		char key[64];
+		snprintf(key, sizeof(key), "C09:%s:%c:lost-behind-a-resolver-that-chases-the-cname", QTN[qi], CODEC[ci]);
+		DRV_VIOL(key, "%s answer, codec %c: handed on by a resolver under NXDOMAIN (AA clear, RA set) the client extracted %d bytes, from the datagram as sent %d"
+			 "\tqtype=%s codec=%c n=%d style=%s name=%s buf=%d seed=%u",
+			 QTN[qi], CODEC[ci], rl2, rl, QTN[qi], CODEC[ci], n, STYLE[style], NAMEKIND[nk], BUFSZ[bk], seed);
+	}
+	free(buf2);
+	wire[2] = f2; wire[3] = f3;
+}
+
 static void one_length(int qi, int ci, int n)
 {
 	int style, nk, bk, rl;
@@ -357,6 +389,8 @@ static void one_length(int qi, int ci, int n)
 				judge(qi, ci, nk, bk, style, p, n, buf, rl, wire_len);
 				if (wire_len >= 0 && (QT[qi] == 15 || QT[qi] == 33) && rl > 0)
 					reordered_reads(qi, ci, nk, bk, style, n, buf, rl);
+				if (wire_len >= 0 && QT[qi] == 1 && rl > 0)
+					chased_read(qi, ci, nk, bk, style, n, buf, rl);
 				free(buf);
 			}
 		}
@@ -382,6 +416,7 @@ static void report(int qi, int ci)
 	DRV_X("order_passes_descending_and_interleaved", order_passes);
 	DRV_X("order_pass_cases", evals_order);
 	DRV_X("reads_with_reordered_records", n_reordered_reads);
+	DRV_X("reads_behind_a_cname_chasing_resolver", n_chased_reads);
 	DRV_X("multi_record_answers_reordered", n_reordered_multi);
 	for (nk = 0; nk < NNAME; nk++) for (bk = 0; bk < NBUF; bk++) for (st = 0; st < NSTYLE; st++) {
 		struct grp *g = &G[qi][ci][nk][bk][st];
